@@ -31,7 +31,7 @@ def run(ctx):
         tc.run_stream(ctx, "asan-eigen", g.ALL_OPS, n, backend="eigen", variant="asan")
     big_alloc_probe(ctx)
     tc.optional_part(ctx, "frontend", "run_part", 3000 if ctx.quick() else 40000)
-    for part in (("progcheck", "run_mode", ("grad", 60 if ctx.quick() else 1000), {"variant": "asan"}),):
+    for part in (("progcheck", "run_mode", ("grad", 300 if ctx.quick() else 5000), {"variant": "asan"}),):
         try:
             r = tc.optional_part(ctx, part[0], part[1], *part[2], **part[3])
             if r is not None:
